@@ -119,6 +119,20 @@ var plans = map[string]Plan{
 		Assume: []string{"rules model is correct"}},
 }
 
+// requiredReach lists, per property, probes / fault kinds / oracle sample
+// counters that a thorough run must have hit at least once.
+var requiredReach = map[string][]string{
+	"C05": {"F1_cancel_running", "F2_timeout_mid_search", "F3_stall", "F3_setup_stall", "stop_in_iteration_1", "excluded_root", "ponder_reported", "pv_lines_checked", "position_checks", "timer_alive_at_next_go"},
+	"C07": {"terminal_distinct_checked", "F1_cancel_running"},
+	"C11": {"F12_index_collision", "F12_age", "F12_resize", "F12_clear", "collision_deeper", "collision_shallower", "collision_equal_fresh", "collision_equal_aged", "hit_checked", "put_update"},
+	"C12": {"F1_cancel_running", "F2_timeout_mid_search", "F4_burst", "F4_go_within_5ms_of_result", "F5_ponderhit_running", "stop_in_iteration_1", "stop_in_busy_wait", "ponderhit_after_internal_completion", "timer_alive_at_next_go", "isready_mid_search", "newgame_vs_fresh_compared", "setoption_audits", "position_checks", "readyok"},
+	"C13": {"F2_timeout_mid_search", "movetime_expired", "time_control_refill", "first_search_after_book", "book_move_played", "observed_samples", "allotted_samples", "depth_samples", "searchmoves_samples", "budget_sequence_steps"},
+	"C14": {"F6_start_while_running", "rejected_start_returned", "F6_stop_when_idle", "F6_resize_while_searching", "F6_clearhash_while_searching", "F6_newgame_while_searching", "F5_ponderhit_running", "timer_alive_at_next_start", "ponderhit_after_internal_completion", "is_searching_checks", "stops_of_running_search", "terminal_root_checks"},
+	"C16": {"F7_damaged_line", "fen_strings_parsed", "fen_rejected", "fen_accepted", "position_checks", "readyok"},
+	"C19": {"F11_schedule_permutation", "F10_bad_move_in_line", "simple_with_promotion", "builds", "lock_grants"},
+	"C20": {"cache_cases_undecodable", "exhaustive_prefix_books", "F9_truncate", "F9_bitflip", "F9_garbage", "F9_empty", "F9_missing", "F9_directory", "F9_truncate_at_message_boundary"},
+}
+
 // ---------------------------------------------------------------------------
 // build
 // ---------------------------------------------------------------------------
@@ -1070,6 +1084,18 @@ func report(prop, tier string, seed uint64, plan Plan, bin, rbin string, results
 	}
 	for k, n := range incidental {
 		fmt.Printf("note: incidental violation of another property seen %d times (decided by that property's own check): %s\n", n, k)
+	}
+
+	// reach self-assessment (thorough tier): a rare-branch probe stuck at zero
+	// means the workload or the fault mix no longer reaches what it should
+	if tier == "thorough" {
+		for _, name := range requiredReach[prop] {
+			n := int64(probes[name]) + int64(faults[name]) + counters[name]
+			if n == 0 {
+				fmt.Printf("SELF-ASSESSMENT: reach probe %q is stuck at zero in a thorough run\n", name)
+				exit = max(exit, 2)
+			}
+		}
 	}
 
 	// samples: a few complete scenarios
